@@ -5,7 +5,7 @@ import ast
 
 from ..absint import in_try_catching
 from ..absval import iter_state, NONE, ZERO, UNDEF, CMP
-from ..loader import norm
+from ..loader import norm, own_nodes
 from .common import (has_sentinel, rowlike, only_cmp, integral, fmt_value, analysed,
                      has_csent, has_real_key)
 
@@ -149,7 +149,12 @@ def run(ctx):
                         detail={'iterator': fmt_value(v)})
             elif ev.kind == 'rowuse':
                 v = ev.info['value']
-                if has_sentinel(v) and any(rowlike(a) for a in v):
+                if has_sentinel(v) and any(rowlike(a) for a in v) and _flag_guarded(fn, pm, ev.node, ev.info.get('node')):
+                    if real:
+                        n_use += 1
+                    rep.held('R20.2', fn, norm(ev.node), 'only reached once the flag that is raised together with the first '
+                             'real row is set', ev.node)
+                elif has_sentinel(v) and any(rowlike(a) for a in v):
                     if real:
                         n_use += 1
                     rep.violated(
@@ -162,7 +167,10 @@ def run(ctx):
                         n_use += 1
             elif ev.kind == 'yield':
                 v = ev.info.get('value') or frozenset()
-                if has_sentinel(v) and any(rowlike(a) for a in v):
+                if has_sentinel(v) and any(rowlike(a) for a in v) and \
+                        _flag_guarded(fn, pm, ev.node, getattr(ev.node, 'value', None)):
+                    pass
+                elif has_sentinel(v) and any(rowlike(a) for a in v):
                     if real:
                         n_use += 1
                     rep.violated(
@@ -217,3 +225,70 @@ def run(ctx):
     ctx.floor('next_sites', n_next, 60)
     rep.count('row_use_sites', n_use)
     rep.count('division_sites', n_div)
+
+
+def _flag_guarded(fn, pm, node, expr):
+    """`expr` (a local that starts as a sentinel) is used under a test of a boolean flag F such that F is False
+    initially and every `F = True` stands in a block in which the local has just been given a real value
+    (`cur = nxt; pending = True`): F true implies the local is no longer the sentinel."""
+    from .c01 import _guards, _conjuncts
+    if expr is None:
+        return False
+    names = [x.id for x in ast.walk(expr) if isinstance(x, ast.Name)]
+    if not names:
+        return False
+    flags = set()
+    # enclosing ifs / preceding leave-guards
+    for test, pol in _guards(pm, node, fn.node):
+        for e, p in _conjuncts(test, pol):
+            if p and isinstance(e, ast.Name):
+                flags.add(e.id)
+    # earlier conjuncts of the same `and` (if pending and query(prv, cur, None))
+    cur = node
+    while id(cur) in pm:
+        p = pm[id(cur)]
+        if isinstance(p, ast.BoolOp) and isinstance(p.op, ast.And):
+            for v in p.values:
+                if v is cur:
+                    break
+                if isinstance(v, ast.Name):
+                    flags.add(v.id)
+        if isinstance(p, ast.stmt) and not isinstance(p, (ast.If, ast.While)):
+            # the statement itself may sit under `if F and ...:` handled by _guards
+            pass
+        if isinstance(p, (ast.FunctionDef, ast.AsyncFunctionDef)):
+            break
+        cur = p
+    if not flags:
+        return False
+    assigns = {}
+    for x in own_nodes(fn.node):
+        if isinstance(x, ast.Assign):
+            for t in x.targets:
+                for y in ast.walk(t):
+                    if isinstance(y, ast.Name) and isinstance(y.ctx, ast.Store):
+                        assigns.setdefault(y.id, []).append(x)
+    for f in flags:
+        fas = assigns.get(f, [])
+        inits = [a for a in fas if isinstance(a.value, ast.Constant) and a.value.value is False]
+        raises = [a for a in fas if isinstance(a.value, ast.Constant) and a.value.value is True]
+        if len(inits) + len(raises) != len(fas) or not inits or not raises:
+            continue
+        ok = True
+        for nm in names:
+            vas = assigns.get(nm, [])
+            real_assigns = [a for a in vas if not (isinstance(a.value, ast.Constant) and a.value.value is None)]
+            if not vas:
+                continue        # not a local with a sentinel start (e.g. a function name)
+            for r in raises:
+                blk = None
+                pr = pm.get(id(r))
+                for field in ('body', 'orelse', 'finalbody'):
+                    b = getattr(pr, field, None)
+                    if isinstance(b, list) and any(z is r for z in b):
+                        blk = b
+                if blk is None or not any(any(z is a for z in blk) and a.lineno < r.lineno for a in real_assigns):
+                    ok = False
+        if ok:
+            return True
+    return False
